@@ -18,7 +18,8 @@ package main
 // then a returned before b was invoked (the converse need not hold, which only weakens the order
 // constraints the judge enforces — never a false alarm). Results are canonical per component (see
 // s_objs.go); `*` = not judged (iterators: race-checked only). Nothing is ever compared with one
-// expected interleaving.
+// expected interleaving. A workload that does not finish within 15 s yields `h timeout` (judged as a
+// failure); the histories of later cases of the same process are then `h skipped-after-timeout`.
 
 import (
 	. "verifharness/hlib"
@@ -143,75 +144,87 @@ func (b *spinBarrier) wait() {
 	}
 }
 
+// wedged: an earlier workload of this process never finished (its goroutines still spin or block);
+// later histories would be distorted, so they are not recorded any more.
+var wedged bool
+
 func (r *concRunner) run(lockstep bool) string {
-	var clock int64
-	exec := func(op *concOp) {
-		if op.yield {
-			runtime.Gosched()
-		}
-		op.inv = atomic.AddInt64(&clock, 1)
-		op.res = safeDo(r.obj, op.f)
-		op.ret = atomic.AddInt64(&clock, 1)
+	if wedged {
+		return "h skipped-after-timeout"
 	}
-	for _, op := range r.pre {
-		exec(op)
-	}
-	start := make(chan struct{})
-	var wg sync.WaitGroup
-	rounds := 0
-	for _, name := range r.order {
-		if len(r.threads[name]) > rounds {
-			rounds = len(r.threads[name])
-		}
-	}
-	bar := &spinBarrier{n: int32(len(r.order))}
-	for _, name := range r.order {
-		ops := r.threads[name]
-		wg.Add(1)
-		go func() {
-			defer wg.Done()
-			<-start
-			if !lockstep {
-				for _, op := range ops {
-					exec(op)
-				}
-				return
-			}
-			for i := 0; i < rounds && atomic.LoadInt32(&bar.abort) == 0; i++ {
-				bar.wait()
-				if i < len(ops) {
-					exec(ops[i])
-				}
-			}
-		}()
-	}
-	close(start)
-	done := make(chan struct{})
-	go func() { wg.Wait(); close(done) }()
-	select {
-	case <-done:
-	case <-time.After(30 * time.Second):
-		// a goroutine is stuck (deadlock in the code under test); the goroutines are abandoned
-		atomic.StoreInt32(&bar.abort, 1)
-		r.threads = map[string][]*concOp{}
-		return "h timeout"
-	}
-	for _, op := range r.post {
-		exec(op)
-	}
-	var b strings.Builder
-	b.WriteString("h")
-	emit := func(ops []*concOp) {
-		for i, op := range ops {
-			fmt.Fprintf(&b, " %s.%d:%d:%d:%s", op.thread, i, op.inv, op.ret, op.res)
-		}
-	}
-	emit(r.pre)
-	for _, name := range r.order {
-		emit(r.threads[name])
-	}
-	emit(r.post)
+	pre, post, order, threads := r.pre, r.post, r.order, r.threads
+	obj := r.obj
 	// a second `run` in the same case would re-execute nothing
 	r.pre, r.post, r.order, r.threads = nil, nil, nil, map[string][]*concOp{}
-	return b.String()
+	bar := &spinBarrier{n: int32(len(order))}
+	result := make(chan string, 1)
+	go func() {
+		var clock int64
+		exec := func(op *concOp) {
+			if op.yield {
+				runtime.Gosched()
+			}
+			op.inv = atomic.AddInt64(&clock, 1)
+			op.res = safeDo(obj, op.f)
+			op.ret = atomic.AddInt64(&clock, 1)
+		}
+		for _, op := range pre {
+			exec(op)
+		}
+		start := make(chan struct{})
+		var wg sync.WaitGroup
+		rounds := 0
+		for _, name := range order {
+			if len(threads[name]) > rounds {
+				rounds = len(threads[name])
+			}
+		}
+		for _, name := range order {
+			ops := threads[name]
+			wg.Add(1)
+			go func() {
+				defer wg.Done()
+				<-start
+				if !lockstep {
+					for _, op := range ops {
+						exec(op)
+					}
+					return
+				}
+				for i := 0; i < rounds && atomic.LoadInt32(&bar.abort) == 0; i++ {
+					bar.wait()
+					if i < len(ops) {
+						exec(ops[i])
+					}
+				}
+			}()
+		}
+		close(start)
+		wg.Wait()
+		for _, op := range post {
+			exec(op)
+		}
+		var b strings.Builder
+		b.WriteString("h")
+		emit := func(ops []*concOp) {
+			for i, op := range ops {
+				fmt.Fprintf(&b, " %s.%d:%d:%d:%s", op.thread, i, op.inv, op.ret, op.res)
+			}
+		}
+		emit(pre)
+		for _, name := range order {
+			emit(threads[name])
+		}
+		emit(post)
+		result <- b.String()
+	}()
+	select {
+	case h := <-result:
+		return h
+	case <-time.After(15 * time.Second):
+		// a call never returned (deadlock or endless loop in the code under test): the goroutines are abandoned
+		atomic.StoreInt32(&bar.abort, 1)
+		wedged = true
+		return "h timeout"
+	}
 }
